@@ -196,5 +196,13 @@ def _f10a(w):
 
 FINDING_REPLAYS = {"F-C10a": _f10a}
 ASSUMES = ["A-PY"]
-NOT_COVERED = ["clause 2 of the property (composition of extends/include/block with components) is not decided",
+def _bounded_composition(tier, repo):
+    from harness.bounded_composition import run
+    return run(repo)
+
+
+REG.bounded_check("bounded#template_families_render_like_their_hand_flattened_twin", P, _bounded_composition,
+                  note="clause 2 has NO deductive part (no function-level contract expresses 'renders like the hand-flattened template'): 240 template families (extends / block / block.super / include around and inside components, a component whose slot sits in an included partial, a component whose template extends a base, slot pass-through) x 2 context modes are rendered for real next to their hand-flattened twins")
+
+NOT_COVERED = ["clause 2 of the property (composition of extends/include/block with components) is NOT decided deductively; it is covered only by the BOUNDED stand-in bounded#template_families_render_like_their_hand_flattened_twin (240 families x 2 modes, never counted as proved)",
                "AST equality is against the Django installed in this image (version and sha256 in the evidence)"]
